@@ -1,7 +1,9 @@
 pub mod c07;
+pub mod c09;
+pub mod c11;
 
 use crate::runner::Check;
 
 pub fn all() -> Vec<Box<dyn Check>> {
-    vec![Box::new(c07::C07)]
+    vec![Box::new(c07::C07), Box::new(c09::C09), Box::new(c11::C11)]
 }
